@@ -115,11 +115,14 @@ theorem lockset_witness :
     ¬ (∀ en ∈ table, ∀ e ∈ en.events, ∀ f w, e.kind = Kind.acc f w → protectedAcc en e f = true) :=
   locksetStrict_false table (by decide +kernel)
 
-/-- Every *write* of a shared field (other than `urh->was_closed`) is protected: the
-    known-unprotected accesses of `connection->suspended` are reads only. -/
-theorem writes_protected :
-    ∀ en ∈ table, ∀ e ∈ en.events, ∀ f, e.kind = Kind.acc f true →
-      (protectedAcc en e f = true ∨ f = Field.urh_was_closed) :=
+/-- **Writes need the mutex itself.**  Every write of a shared field is made under the mutex
+    designated for the field — the daemon-thread role alone is not accepted for the lists that
+    connection threads also touch in thread-per-connection mode — except: benign fields, the
+    daemon-only fields (epoll ready list, `thread_joined`) written by the confined daemon thread,
+    fresh objects, the detached local hand-over list, start-up code, and `urh->was_closed`
+    (known finding F18b).  The known-unprotected accesses of `connection->suspended` are reads. -/
+theorem writes_under_mutex :
+    ∀ en ∈ table, ∀ e ∈ en.events, ∀ f, e.kind = Kind.acc f true → writeOk en e f = true :=
   (writesOk_iff table).mp (by decide +kernel)
 
 -- non-vacuity: the table contains protected writes of each kind
@@ -147,6 +150,36 @@ theorem callbacks_unlocked :
     test of the flag; `close_all_connections` joins, closes via `close_connection` and ends with
     `MHD_cleanup_connections`. -/
 theorem stop_sequence : stopSequenceOk table = true := by decide +kernel
+
+/-! ### the whole-table checks are sensitive (kernel-checked mutations of the regenerated table)
+
+  These are *tests of the checks*, not part of the property: each mutates the generated table the
+  way a change of the C source would and shows that the corresponding `decide` would fail. -/
+
+/-- rewrite the events of one function of the table -/
+def mutFn (name : String) (f : List Ev → List Ev) (t : List Entry) : List Entry :=
+  t.map (fun en => if en.name == name then { en with events := f en.events } else en)
+
+-- the accesses of MHD_resume_connection lose their mutex
+example : locksetOk (mutFn "MHD_resume_connection" (fun es => es.map (fun e => { e with must := [] })) table) = false := by
+  decide +kernel
+example : writesOk (mutFn "new_connection_process_" (fun es => es.map (fun e => { e with must := [] })) table) = false := by
+  decide +kernel
+-- a function takes the new-connections mutex while holding the per-IP mutex (inverse of the existing edge)
+example : rankOk (mutFn "MHD_ip_count_lock" (fun es => es ++
+    [⟨.lock .new_connections_mutex, 0, [.per_ip_connection_mutex], [.per_ip_connection_mutex], [], [], .any⟩]) table)
+    lockRank = false := by decide +kernel
+-- MHD_stop_daemon joins with a mutex held / joins before it sets the flag
+example : blockingOk (mutFn "MHD_stop_daemon" (fun es => es.map (fun e => { e with may := [.cleanup_connection_mutex] })) table) = false := by
+  decide +kernel
+example : stopSequenceOk (mutFn "MHD_stop_daemon" List.reverse table) = false := by decide +kernel
+-- a callee assumes a lock that a call site does not hold
+example : contextOk (table.map (fun en =>
+    if en.name == "close_connection" then { en with entryMust := [.cleanup_connection_mutex] } else en)) = false := by
+  decide +kernel
+-- an application callback under the cleanup mutex
+example : callbackOk (mutFn "MHD_connection_close_" (fun es => es.map (fun e => { e with may := [.cleanup_connection_mutex] })) table) = false := by
+  decide +kernel
 
 /-! ## B. shutdown state machine -/
 
@@ -205,5 +238,30 @@ def exSched : List (Nat × Act) :=
 example : ∀ w ∈ exWs, InitW w := by decide
 example : (run exWs exSched).map (fun ws => ws.all (fun w => w.stage == .joined)) = some true := by decide
 example : countProtocol exWs exSched ≤ phi exWs := by decide
+
+/-! ## C. thread-per-connection mode: joining the connection threads (fix F18a) -/
+
+open Mhd.StopTpc in
+/-- **Stop terminates in thread-per-connection mode** (repaired thread exit path): for any number
+    of connections, each either in the normal list or resumed-but-not-yet-processed in the
+    suspended list, and for *every* choice of which connection threads observe the shutdown before
+    the daemon thread processes the resumes, the daemon's final loop finds the connection list
+    empty; every connection ends freed, its thread exited, notified exactly once. -/
+theorem tpc_stop_terminates (cs : List (StopTpc.TC × Bool)) (h : ∀ p ∈ cs, StopTpc.InitC p.1) :
+    ∃ r, StopTpc.stopTpc true cs = some r ∧ r.length = cs.length ∧
+      ∀ c ∈ r, c.place = .freed ∧ c.notified = 1 ∧ c.exited = true :=
+  StopTpc.stop_fixed cs h
+
+/-- kernel-checked witness of the violation in the code *before* fix F18a: one resumed connection
+    whose thread observes the shutdown before the daemon thread has processed the resume makes the
+    final loop of `close_all_connections` spin forever (observed as the watchdog expiry of the
+    stress harness on the unrepaired tree). -/
+theorem tpc_stop_unfixed_witness :
+    StopTpc.InitC ⟨.susp, 0, false⟩ ∧ StopTpc.stopTpc false [(⟨.susp, 0, false⟩, true)] = none := by
+  constructor <;> decide
+
+-- non-vacuity: three connections, mixed placement and timing
+example : (StopTpc.stopTpc true [(⟨.conn, 0, false⟩, true), (⟨.susp, 0, false⟩, true), (⟨.susp, 0, false⟩, false)]).isSome = true := by
+  decide
 
 end Mhd.C18
